@@ -30,6 +30,8 @@ static size_t ps_nwdata;
 static int ps_outside;           /* an access left the region */
 static unsigned ps_calls, ps_call_bound;
 static int ps_log_reads = 1, ps_log_overflow;
+static size_t ps_page; /* > 0: a write never crosses a multiple of ps_page (a page writer that reports the short count) */
+static unsigned ps_page_cuts;
 static int ps_runaway;
 /* fault injection: the ps_fault_at-th access (0-based, reads and writes counted together) fails */
 static long ps_fault_at = -1;
@@ -78,6 +80,10 @@ ps_access(int write, uint32_t addr, void *rbuf, const void *wbuf, size_t n)
     }
     size_t idx = ps_nlog;
     size_t todo = n;
+    if (ps_page && write && n > ps_page - addr % ps_page) {
+        todo = ps_page - addr % ps_page;
+        ps_page_cuts++;
+    }
     if (ps_fault_at >= 0 && (long)idx == ps_fault_at) {
         ps_fault_fired = 1;
         ps_fault_was_write = write;
